@@ -120,7 +120,14 @@ func TestVerifC35(t *testing.T) {
 	ctx := context.Background()
 	evals, nontrivial := 0, 0
 	outcomes := map[string]int{}
+	violated := false
 	for ci, c := range cases {
+		if violated {
+			// stop at the first violation: a broken Accept may leave callbacks behind that panic the
+			// process later (seen with a seeded change), which would turn the verdict into a crash
+			r.Cap("stopped at the first violation")
+			break
+		}
 		if r.Expired() {
 			r.Cap("deadline reached")
 			break
@@ -205,17 +212,20 @@ func TestVerifC35(t *testing.T) {
 		select {
 		case out := <-done:
 			if out.err != nil {
+				violated = true
 				r.Violation("C35:accept-fails-after-valid-answer", fmt.Sprintf("Accept returned %v although a peer served the valid chunk (peer requests served: %d) [%s]", out.err, script.served, c), rep)
 				outcomes["error"]++
 				continue
 			}
 			if len(out.eb.Chunks) != len(blk.ChunkCerts) {
+				violated = true
 				r.Violation("C35:wrong-chunk-count", fmt.Sprintf("executed block has %d chunks, the block references %d [%s]", len(out.eb.Chunks), len(blk.ChunkCerts), c), rep)
 				continue
 			}
 			bad := false
 			for i, cert := range blk.ChunkCerts {
 				if out.eb.Chunks[i].id != cert.ChunkID {
+					violated = true
 					r.Violation("C35:wrong-chunk-delivered", fmt.Sprintf("executed block chunk %d is %s, the certificate references %s [%s]", i, out.eb.Chunks[i].id, cert.ChunkID, c), rep)
 					bad = true
 					break
@@ -225,6 +235,7 @@ func TestVerifC35(t *testing.T) {
 				outcomes[fmt.Sprintf("ok after %d peer requests", script.served)]++
 			}
 		case <-time.After(30 * time.Second):
+			violated = true
 			r.Violation("C35:accept-hangs", fmt.Sprintf("Accept did not return within 30 s [%s]", c), rep)
 		}
 	}
